@@ -129,12 +129,16 @@ def directOf : Route → List LbEp
   | .direct e => [e]
   | _ => []
 
+/-- One endpoint's contribution to the gateway weights of its locality. -/
+def netStep (b : Builder) (all : List Gw) (acc : List (Gw × Nat)) (e : Ep) : List (Gw × Nat) :=
+  match route b all e with
+  | .via gws share => splitWeight acc gws share
+  | _ => acc
+
 /-- The gateway weights of one locality: the fold over its endpoints, starting from an empty map
     **for every locality**. -/
 def gwWeights (b : Builder) (all : List Gw) (eps : List Ep) : List (Gw × Nat) :=
-  eps.foldl (fun acc e => match route b all e with
-    | .via gws share => splitWeight acc gws share
-    | _ => acc) []
+  eps.foldl (netStep b all) []
 
 def gwEndpoint (gw : Gw) (w : Nat) : LbEp :=
   { host := gw.addr, port := gw.port, health := 0, weight := if w = 0 then 1 else w }
